@@ -50,9 +50,12 @@ def metricsJHandlers : List (String × JHandler) := [
   ("mdd", fun j => do
     let xs ← jRatList j "xs"
     let s := withdrawHighLow xs
-    pure (Json.mkObj [("code", resJ (maxDrawDown xs)), ("high", natJ s.gHigh), ("low", natJ s.gLow), ("g", ratJ s.g),
-      ("spec", ratJ (mddSpec xs)), ("peak", ratJ (match xs with | [] => 0 | x :: _ => mddPeak x xs)),
-      ("old", resJ (maxDrawDownOld xs))])),
+    -- the quadratic definition and the running-peak form only on request (short series)
+    let withSpec := match jOpt j "spec" with | some (.bool true) => true | _ => false
+    let extra := if withSpec then
+        [("spec", ratJ (mddSpec xs)), ("peak", ratJ (match xs with | [] => 0 | x :: _ => mddPeak x xs))] else []
+    pure (Json.mkObj ([("code", resJ (maxDrawDown xs)), ("high", natJ s.gHigh), ("low", natJ s.gLow), ("g", ratJ s.g),
+      ("old", resJ (maxDrawDownOld xs))] ++ extra))),
   ("returns", fun j => do
     let xs ← jRatList j "xs"
     pure (Json.mkObj [("multiple", listJ (returnMultiple xs)), ("rates", listJ (returnRateSeries xs)),
